@@ -22,7 +22,7 @@ BOUNDS = {'quick': {'histories': 'all call sequences of length <= 3 over {add, r
                        'registry_pre_states': '0..4 entries'}}
 OUTSIDE = ['histories longer than the bound (the one-operation lemma from an arbitrary registry state covers every length for plugins)',
            'random longer histories of the property text: sampling is not this technique']
-ASSUMPTIONS = ['plugins / contracts / interfaces are opaque distinct objects; an entry is "used" if the stub records a call during run_script']
+ASSUMPTIONS = ['plugins are plain functions, bound methods (a new, equal object on every access) or value-equal callables; contracts / interfaces are opaque distinct objects; an entry is "used" if the stub records a call during run_script']
 EXPLANATION = ('the registry functions run from the real source inside a private package instance whose module-level registries are '
                'snapshotted and restored per path; every history position is a symbolic choice explored exhaustively; contents are compared '
                'with a set-semantics reference; a following run_script must call exactly the active plugins / reach exactly the active '
@@ -32,15 +32,70 @@ MUST_REACH = ['history_done', 'onestep_reset', 'independence_done', 'caller_dict
 SCOPES = ['signature_extensions', 'check_template']
 
 
-def _mk_plugins(log):
-    out = []
-    for i in range(4):
-        def p(tape, stack, cache, i=i):
-            log.append(i)
-            return True
-        p.__name__ = f'plugin{i}'
-        out.append(p)
-    return out
+class _Holder:
+    """an object whose bound method is the plugin: `h.call` is a new method object on every access, equal (==) to the
+    previous ones but not identical"""
+
+    def __init__(self, log, i):
+        self.log, self.i = log, i
+
+    def call(self, tape, stack, cache):
+        self.log.append(self.i)
+        return True
+
+
+class _EqPlugin:
+    """callable plugin whose equality is by value, not identity"""
+
+    def __init__(self, log, i):
+        self.log, self.i = log, i
+
+    def __call__(self, tape, stack, cache):
+        self.log.append(self.i)
+        return True
+
+    def __eq__(self, o):
+        return isinstance(o, _EqPlugin) and o.i == self.i
+
+    def __hash__(self):
+        return hash(('eqplugin', self.i))
+
+
+class _Plugs:
+    """plugs[i] is what a caller passes to add / remove for plugin i; for the kinds "method" and "eq_object" every access
+    yields a fresh object equal to the earlier ones, as `obj.method` does in ordinary code"""
+
+    def __init__(self, log, kind, n):
+        self.log, self.kind, self.n = log, kind, n
+        if kind == 'function':
+            self.fns = []
+            for i in range(n):
+                def p(tape, stack, cache, i=i):
+                    log.append(i)
+                    return True
+                p.__name__ = f'plugin{i}'
+                self.fns.append(p)
+        elif kind == 'method':
+            self.holders = [_Holder(log, i) for i in range(n)]
+
+    def __getitem__(self, i):
+        if isinstance(i, slice):
+            return _Plugs(self.log, self.kind, len(range(self.n)[i]))
+        if self.kind == 'function':
+            return self.fns[i]
+        if self.kind == 'method':
+            return self.holders[i].call
+        return _EqPlugin(self.log, i)
+
+    def index(self, p):
+        for i in range(self.n):
+            if self[i] == p:
+                return i
+        raise ValueError('unknown plugin object')
+
+
+def _mk_plugins(log, kind='function'):
+    return _Plugs(log, kind, 4)
 
 
 def _choose(c, name, n):
@@ -49,10 +104,10 @@ def _choose(c, name, n):
 
 
 # ------------------------------------------------------------------------------ (i) one operation from any state
-def h_onestep(c, pkg, n_pre):
+def h_onestep(c, pkg, n_pre, kind='function'):
     F = pkg.functions
     log = []
-    plugs = _mk_plugins(log)
+    plugs = _mk_plugins(log, kind)
     scope = SCOPES[0]
     # arbitrary pre-state: an ordered list of n_pre distinct plugins (order chosen by the solver)
     order = []
@@ -87,7 +142,7 @@ def h_onestep(c, pkg, n_pre):
 def r_onestep(inputs, params, obligation):
     import tapescript.functions as RF
     log = []
-    plugs = _mk_plugins(log)
+    plugs = _mk_plugins(log, params.get('kind', 'function'))
     scope = 'verif_scope'
     order = inputs['pre_order']
     RF._plugins[scope] = [plugs[i] for i in order]
@@ -112,10 +167,10 @@ def r_onestep(inputs, params, obligation):
 
 
 # ------------------------------------------------------------------------------ (ii)+(iii) histories
-def h_history_plugins(c, pkg, length, nscopes):
+def h_history_plugins(c, pkg, length, nscopes, kind='function'):
     F, P = pkg.functions, pkg.parsing
     log = []
-    plugs = _mk_plugins(log)[:3]
+    plugs = _mk_plugins(log, kind)[:3]
     ref = {s: [] for s in SCOPES[:nscopes]}
     hist = []
     for k in range(length):
@@ -153,7 +208,7 @@ def r_history_plugins(inputs, params, obligation):
     import tapescript
     import tapescript.functions as RF
     log = []
-    plugs = _mk_plugins(log)[:3]
+    plugs = _mk_plugins(log, params.get('kind', 'function'))[:3]
     saved = {k: list(v) for k, v in RF._plugins.items()}
     ref = {s: [] for s in SCOPES}
     try:
@@ -382,9 +437,12 @@ def h_caller_dicts(c, pkg):
 
 
 def _p_hist(tier):
+    # plugin objects whose equality is not identity (bound methods, value-equal callables): shorter histories
     if tier == 'quick':
-        return [{'length': n, 'nscopes': 2} for n in (1, 2, 3)] + [{'length': 4, 'nscopes': 1}]
-    return [{'length': n, 'nscopes': 2} for n in (1, 2, 3, 4, 5)] + [{'length': 6, 'nscopes': 1}]
+        return [{'length': n, 'nscopes': 2} for n in (1, 2, 3)] + [{'length': 4, 'nscopes': 1}] + \
+            [{'length': n, 'nscopes': 1, 'kind': k} for n in (2, 3) for k in ('method', 'eq_object')]
+    return [{'length': n, 'nscopes': 2} for n in (1, 2, 3, 4, 5)] + [{'length': 6, 'nscopes': 1}] + \
+        [{'length': n, 'nscopes': ns, 'kind': k} for n, ns in ((2, 2), (3, 2), (4, 1), (5, 1)) for k in ('method', 'eq_object')]
 
 
 def _p_indep(tier):
@@ -402,7 +460,8 @@ def _sig(v):
 
 
 HARNESSES = [
-    HarnessSpec('onestep', h_onestep, [{'n_pre': n} for n in range(5)], replay=r_onestep, fresh_pkg=True, signature=_sig),
+    HarnessSpec('onestep', h_onestep, [{'n_pre': n} for n in range(5)] + [{'n_pre': n, 'kind': k} for n in (1, 2, 3) for k in ('method', 'eq_object')],
+                replay=r_onestep, fresh_pkg=True, signature=_sig),
     HarnessSpec('history_plugins', h_history_plugins, _p_hist, replay=r_history_plugins, fresh_pkg=True, signature=_sig),
     HarnessSpec('history_contracts', h_history_contracts, lambda t: [{'length': n} for n in ((1, 2, 3, 4) if t == 'quick' else (1, 2, 3, 4, 5, 6))],
                 fresh_pkg=True, signature=_sig),
